@@ -83,182 +83,4 @@ macro "finishA" : tactic =>
   `(tactic| (constructor <;>
       simp_all [scal, exitConn, tdPast, casSt, isStopping, scal_startBg, scal_deferDeliver] <;> (try omega)))
 
-theorem A_same {s s' : St} (h : scal s' = scal s) (ha : InvA (scal s)) : InvA (scal s') := h ▸ ha
-
-theorem A_enter {i : Nat} {s s' : St} (h : enter i s = some s') (ha : InvA (scal s)) : InvA (scal s') := by
-  unfold enter at h; crunch h <;> exact ha
-
-theorem A_decide {fix : Bool} {i : Nat} {s s' : St} (h : decide fix i s = some s') (ha : InvA (scal s)) :
-    InvA (scal s') := by
-  unfold decide at h; crunch h
-  · exact ha
-  · exact ha
-  · show InvA (scal (startBg s)); rw [scal_startBg]; exact ha.startBg
-  · exact ha
-  · exact ha
-
-theorem A_put {i : Nat} {s s' : St} (h : put i s = some s') (ha : InvA (scal s)) : InvA (scal s') := by
-  unfold put at h; crunch h; exact ha
-
-theorem A_putFail {i : Nat} {s s' : St} (h : putFail i s = some s') (ha : InvA (scal s)) : InvA (scal s') := by
-  unfold putFail at h; crunch h; exact ha
-
-theorem A_syncOk {i : Nat} {s s' : St} (h : syncOk i s = some s') (ha : InvA (scal s)) : InvA (scal s') := by
-  unfold syncOk at h; crunch h; exact ha
-
-theorem A_broken {v : Scal} (ha : InvA v) : InvA { v with err := latch .broken v.err, connUp := false } := by
-  obtain ⟨a1, a2, a3, a4, a5, a6, a7, a8, a9, a10, a11, a12, a13⟩ := ha
-  constructor <;> simp_all
-
-theorem A_syncErr {i : Nat} {s s' : St} (h : syncErr i s = some s') (ha : InvA (scal s)) : InvA (scal s') := by
-  unfold syncErr at h; crunch h <;>
-    (show InvA (scal (startBg _)); rw [scal_startBg]; exact (A_broken ha).startBg)
-
-theorem A_leave {i : Nat} {s s' : St} (h : leave i s = some s') (ha : InvA (scal s)) : InvA (scal s') := by
-  unfold leave at h; crunch h
-  · rw [scal_startBg]; exact ha.startBg
-  · exact ha
-
-theorem A_abort {i : Nat} {s s' : St} (h : abort i s = some s') (ha : InvA (scal s)) : InvA (scal s') := by
-  unfold abort at h; crunch h; exact ha
-
-theorem A_cancel {i : Nat} {s s' : St} (h : cancel i s = some s') (ha : InvA (scal s)) : InvA (scal s') := by
-  unfold cancel at h; crunch h; exact ha
-
-theorem A_connBreak {s s' : St} (h : connBreak s = some s') (ha : InvA (scal s)) : InvA (scal s') := by
-  obtain ⟨a1, a2, a3, a4, a5, a6, a7, a8, a9, a10, a11, a12, a13⟩ := ha
-  unfold connBreak at h; crunch h; finishA
-
-theorem A_exit {v : Scal} (ha : InvA v) (w : Why) :
-    InvA { v with err := latch w v.err, state := if v.state = 1 then 2 else v.state, connUp := false } := by
-  obtain ⟨a1, a2, a3, a4, a5, a6, a7, a8, a9, a10, a11, a12, a13⟩ := ha
-  constructor <;> simp_all <;> (try split) <;> (try omega) <;> simp_all <;> omega
-
-theorem scal_exitConn (w : Why) (s : St) : scal (exitConn w s) =
-    { scal s with err := latch w s.err, state := if s.state = 1 then 2 else s.state, connUp := false } := rfl
-
-theorem A_pingFail {s s' : St} (h : pingFail s = some s') (ha : InvA (scal s)) : InvA (scal s') := by
-  unfold pingFail at h; crunch h; rw [scal_exitConn]; exact A_exit ha _
-
-theorem A_wTake {s s' : St} (h : wTake s = some s') (ha : InvA (scal s)) : InvA (scal s') := by
-  obtain ⟨a1, a2, a3, a4, a5, a6, a7, a8, a9, a10, a11, a12, a13⟩ := ha
-  unfold wTake at h; crunch h; finishA
-
-theorem A_wFlush {s s' : St} (h : wFlush s = some s') (ha : InvA (scal s)) : InvA (scal s') := by
-  unfold wFlush at h; crunch h
-  · obtain ⟨a1, a2, a3, a4, a5, a6, a7, a8, a9, a10, a11, a12, a13⟩ := ha
-    finishA
-  · have hx := A_exit ha .broken
-    obtain ⟨a1, a2, a3, a4, a5, a6, a7, a8, a9, a10, a11, a12, a13⟩ := hx
-    constructor <;> simp_all [scal, exitConn]
-
-theorem A_rFetch {s s' : St} (h : rFetch s = some s') (ha : InvA (scal s)) : InvA (scal s') := by
-  unfold rFetch at h; crunch h; exact ha
-
-theorem A_rDeliver {s s' : St} (h : rDeliver s = some s') (ha : InvA (scal s)) : InvA (scal s') := by
-  unfold rDeliver at h; crunch h; rw [scal_deliver]; exact ha
-
-theorem A_exited {v : Scal} (ha : InvA v) (htd : v.td = .reading) :
-    InvA { v with err := latch .broken v.err, state := if v.state = 1 then 2 else v.state, connUp := false,
-                  td := .exited } := by
-  obtain ⟨a1, a2, a3, a4, a5, a6, a7, a8, a9, a10, a11, a12, a13⟩ := ha
-  rcases a10 with h0 | h0 | h0 | h0 <;> constructor <;> simp_all [tdPast]
-
-theorem A_rErr {s s' : St} (h : rErr s = some s') (ha : InvA (scal s)) : InvA (scal s') := by
-  unfold rErr at h; crunch h
-  have hd : InvA (scal (deferDeliver s)) := by rw [scal_deferDeliver]; exact ha
-  have htd : (scal (deferDeliver s)).td = .reading := by rw [scal_deferDeliver]; assumption
-  exact A_exited hd htd
-
-theorem A_tdSpawn {s s' : St} (h : tdSpawn s = some s') (ha : InvA (scal s)) : InvA (scal s') := by
-  obtain ⟨a1, a2, a3, a4, a5, a6, a7, a8, a9, a10, a11, a12, a13⟩ := ha
-  unfold tdSpawn at h; crunch h <;> finishA
-
-theorem A_bgPingPut {s s' : St} (h : bgPingPut s = some s') (ha : InvA (scal s)) : InvA (scal s') := by
-  unfold bgPingPut at h; crunch h; exact ha
-
-theorem A_draining {v : Scal} (ha : InvA v) {c : Bool} (htd : v.td = .draining c) (x : Td)
-    (hx : x = .loopDone ∨ ∃ c', x = .draining c') : InvA { v with td := x } := by
-  obtain ⟨a1, a2, a3, a4, a5, a6, a7, a8, a9, a10, a11, a12, a13⟩ := ha
-  rcases hx with rfl | ⟨c', rfl⟩ <;> constructor <;> simp_all [tdPast] <;> omega
-
-theorem A_tdIter {s s' : St} (h : tdIter s = some s') (ha : InvA (scal s)) : InvA (scal s') := by
-  unfold tdIter at h; crunch h
-  · exact A_draining ha (c := ‹Bool›) (by assumption) _ (Or.inl rfl)
-  · rw [scal_deliver]
-    exact A_draining ha (c := ‹Bool›) (by assumption) _ (Or.inr ⟨_, rfl⟩)
-  · exact A_draining ha (c := ‹Bool›) (by assumption) _ (Or.inr ⟨_, rfl⟩)
-
-theorem A_tdClose {s s' : St} (h : tdClose s = some s') (ha : InvA (scal s)) : InvA (scal s') := by
-  obtain ⟨a1, a2, a3, a4, a5, a6, a7, a8, a9, a10, a11, a12, a13⟩ := ha
-  unfold tdClose at h; crunch h; finishA
-
-theorem A_closeEnter {w : Why} {s s' : St} (h : closeEnter w s = some s') (ha : InvA (scal s)) : InvA (scal s') := by
-  obtain ⟨a1, a2, a3, a4, a5, a6, a7, a8, a9, a10, a11, a12, a13⟩ := ha
-  unfold closeEnter at h; crunch h; finishA
-
-theorem A_casSt {s : St} {w : Nat} (hc : s.close = .entered w) (ha : InvA (scal s)) : InvA (scal (casSt s)) := by
-  obtain ⟨a1, a2, a3, a4, a5, a6, a7, a8, a9, a10, a11, a12, a13⟩ := ha
-  rcases a10 with h0 | h0 | h0 | h0 <;> constructor <;> simp_all [scal, casSt, isStopping, tdPast]
-
-theorem A_closeCas {s s' : St} (h : closeCas s = some s') (ha : InvA (scal s)) : InvA (scal s') := by
-  unfold closeCas at h; crunch h
-  · rw [scal_startBg]; exact (A_casSt (by assumption) ha).startBg
-  · exact A_casSt (by assumption) ha
-
-theorem A_closePing {s s' : St} (h : closePing s = some s') (ha : InvA (scal s)) : InvA (scal s') := by
-  obtain ⟨a1, a2, a3, a4, a5, a6, a7, a8, a9, a10, a11, a12, a13⟩ := ha
-  unfold closePing at h; crunch h <;> finishA
-
-theorem A_closeGot {s s' : St} (h : closeGot s = some s') (ha : InvA (scal s)) : InvA (scal s') := by
-  obtain ⟨a1, a2, a3, a4, a5, a6, a7, a8, a9, a10, a11, a12, a13⟩ := ha
-  unfold closeGot at h; crunch h; finishA
-
-theorem A_closeGrace {s s' : St} (h : closeGrace s = some s') (ha : InvA (scal s)) : InvA (scal s') := by
-  obtain ⟨a1, a2, a3, a4, a5, a6, a7, a8, a9, a10, a11, a12, a13⟩ := ha
-  unfold closeGrace at h; crunch h; finishA
-
-theorem A_closeTail {s s' : St} (h : closeTail s = some s') (ha : InvA (scal s)) : InvA (scal s') := by
-  obtain ⟨a1, a2, a3, a4, a5, a6, a7, a8, a9, a10, a11, a12, a13⟩ := ha
-  unfold closeTail at h; crunch h; finishA
-
-theorem invA_step {fix : Bool} {s s' : St} {l : Label} (h : step fix s l = some s') (ha : InvA (scal s)) :
-    InvA (scal s') := by
-  cases l <;> simp only [step] at h
-  · exact A_enter h ha
-  · exact A_decide h ha
-  · exact A_put h ha
-  · exact A_putFail h ha
-  · exact A_syncOk h ha
-  · exact A_syncErr h ha
-  · exact A_leave h ha
-  · exact A_abort h ha
-  · exact A_cancel h ha
-  · exact A_connBreak h ha
-  · exact A_pingFail h ha
-  · exact A_wTake h ha
-  · exact A_wFlush h ha
-  · exact A_rFetch h ha
-  · exact A_rDeliver h ha
-  · exact A_rErr h ha
-  · exact A_tdSpawn h ha
-  · exact A_bgPingPut h ha
-  · exact A_tdIter h ha
-  · exact A_tdClose h ha
-  · exact A_closeEnter h ha
-  · exact A_closeCas h ha
-  · exact A_closePing h ha
-  · exact A_closeGot h ha
-  · exact A_closeGrace h ha
-  · exact A_closeTail h ha
-
-theorem invA_init (calls : List Call) (p b : Bool) : InvA (scal (init calls p b)) := by
-  have h0 : InvA (scal { calls := calls, blockFree := b }) := by constructor <;> simp [scal, tdPast]
-  unfold init; split
-  · rw [scal_startBg]; exact h0.startBg
-  · exact h0
-
-theorem Reachable.invA {fix : Bool} {s : St} (h : Reachable fix s) : InvA (scal s) := by
-  induction h with
-  | init calls p b _ => exact invA_init calls p b
-  | step l _ hs ih => exact invA_step hs ih
+end Rv.PipeLife
